@@ -5,6 +5,7 @@
 //! usage: seaq-harness <PROP> --tier quick|thorough --seed N --driver PATH [--replay FILE]
 
 mod c03;
+mod c04;
 mod c16;
 mod c17;
 mod reflex;
@@ -184,6 +185,7 @@ fn main() {
 
     let ok = match prop.as_str() {
         "C03" => { c03::run(&mut ctx); true }
+        "C04" => { c04::run(&mut ctx); true }
         "C16" => { c16::run(&mut ctx); true }
         "C17" => { c17::run(&mut ctx); true }
         _ => false,
